@@ -289,6 +289,10 @@ def Dev.doSetp (d : Dev) : Dev := { d with vec := resize d.vec d.bufferSize, pos
 /-- `basic_device::open` -/
 def Dev.open (d : Dev) (n : Nat) : Dev := { d with bufferSize := n }.doSetp
 
+/-- a freshly opened device of either kind (`async_io_buf` / `output_device`), in any io mode -/
+def Dev.fresh (isAsync full raw : Bool) (n : Nat) : Dev :=
+  ({ isAsync := isAsync, fullBuffering := full, rawMode := raw } : Dev).open n
+
 /-- `basic_device::write(out, e)`; result `false` = returned -1 -/
 def Dev.write {κ : Type} (I : ConnIf κ) (d : Dev) (k : κ) (out : List Bytes) : Dev × κ × Bool :=
   if d.dead then (d, k, false)
